@@ -55,6 +55,16 @@ std::string gen_value_text(Rng & r, bool multiline, std::string * normalised, co
 	int nw = (int)r.range(1, 5);
 	for (int i = 0; i < nw; i++) {
 		std::string wd = WORDS[r.below(NWORDS)];
+		if (r.chance(1, 6)) {
+			// a word with random multi-byte characters: every continuation byte value (0x80..0xBF, incl. 0xA0 and 0x85) gets its turn
+			wd = "u";
+			int n = (int)r.range(1, 3);
+			for (int j = 0; j < n; j++) {
+				if (r.chance(1, 2)) { wd.push_back((char)r.range(0xC2, 0xDF)); wd.push_back((char)r.range(0x80, 0xBF)); }
+				else { wd.push_back((char)r.range(0xE1, 0xEC)); wd.push_back((char)r.range(0x80, 0xBF)); wd.push_back((char)r.range(0x80, 0xBF)); }
+				if (r.chance(1, 2)) wd.push_back((char)('a' + r.below(26)));
+			}
+		}
 		if (i == 0 && wd.compare(0, 2, "//") == 0) wd = "x";
 		if (i) { if (multiline && r.chance(1, 3)) raw += blanks(r, 0, 2) + eol + (r.chance(1, 2) ? "\t" : "    ") + blanks(r, 0, 2); else raw += blanks(r, 1, 3); norm += " "; }
 		raw += wd; norm += wd;
